@@ -163,3 +163,14 @@ Definition to_outcome_with {A B} (f : A -> outcome B) (r : gres A) : outcome B :
   | GPanic k => Panic k
   | GOutOfFuel => Err 1%N
   end.
+
+(* n := copy(x[a:], src): min(len(x)-a, len(src)) elements of src overwrite x from position a.
+   Result: the updated x and n.  (x[a:] panics unless 0 <= a <= len(x).) *)
+Definition go_copy {A} (x : list A) (a : Z) (src : list A) : gres (list A * Z) :=
+  if ((0 <=? a) && (a <=? go_len x))%bool then
+    let n := Z.min (go_len x - a) (go_len src) in
+    GOk (firstn (Z.to_nat a) x ++ firstn (Z.to_nat n) src ++ skipn (Z.to_nat (a + n)) x, n)
+  else GPanic PSlice.
+
+(* a call that the hand-written model of an external function does not cover *)
+Definition PUnmodelled : N := 100%N.
